@@ -44,6 +44,9 @@ logging.getLogger("asyncio").setLevel(logging.CRITICAL)
 logging.getLogger("goodwe").setLevel(logging.CRITICAL)
 
 GARBAGE = bytes.fromhex("deadbeef00112233445566778899")
+# Modbus/TCP has no checksum: bytes with a foreign function code count as an exception-like answer ("rejected"),
+# so the garbage of the tcp framing is a read answer with an impossible (odd) byte count, which is refused
+GARBAGE_TCP = bytes.fromhex("deadbeef0005f703011122334455")
 SHORT = bytes.fromhex("0102")
 
 
@@ -90,7 +93,9 @@ def corrupt(sc: dict, frame: bytes) -> bytes:
     """Same length, not a valid answer."""
     b = bytearray(frame)
     if sc["fr"] == "tcp":
-        b[8] = (b[8] + 1) & 0xFF  # byte count / echo field no longer matches
+        # byte count / echo field no longer matches; decrement so that the frame is not mistaken for the head of a
+        # longer answer (the announced length stays within the bytes delivered)
+        b[8] = (b[8] - 1) & 0xFF
     else:
         b[-1] ^= 0x01  # checksum
     return bytes(b)
@@ -147,7 +152,9 @@ class Peer:
         elif k == "late":
             tr.deliver(ans, T + 1 + d, "late")
         elif k == "garbage":
-            tr.deliver(GARBAGE, d, "garbage")
+            tr.deliver(GARBAGE_TCP if sc["fr"] == "tcp" else GARBAGE, d, "garbage")
+        elif k == "fgarbage":
+            tr.deliver(GARBAGE, d, "exc" if sc["fr"] == "tcp" else "garbage")
         elif k == "short":
             tr.deliver(SHORT, d, "short")
         elif k == "badcrc":
@@ -160,13 +167,14 @@ class Peer:
             tr.deliver(ans, d, "ans")
             tr.deliver(ans, d, "dup")
         elif k == "dupg":
-            tr.deliver(GARBAGE, d, "garbage")
-            tr.deliver(GARBAGE, d, "garbage")
+            g = GARBAGE_TCP if sc["fr"] == "tcp" else GARBAGE
+            tr.deliver(g, d, "garbage")
+            tr.deliver(g, d, "garbage")
         elif k == "ansg":
             tr.deliver(ans, d, "ans")
-            tr.deliver(GARBAGE, d, "garbage")
+            tr.deliver(GARBAGE_TCP if sc["fr"] == "tcp" else GARBAGE, d, "garbage")
         elif k == "gans":
-            tr.deliver(GARBAGE, d, "garbage")
+            tr.deliver(GARBAGE_TCP if sc["fr"] == "tcp" else GARBAGE, d, "garbage")
             tr.deliver(ans, d, "ans")
         elif k in ("frag", "lone"):
             split = f.get("split", 9)
